@@ -1037,6 +1037,10 @@ func propC20(r *Run, w *World) {
 		}
 	}
 
+	// R10 b32/b64
+	r.Rule("C20.R10", "b32/b64 resolve one way and back: getArch maps b64 to the runtime architecture on the four 64-bit ones only, and b32 to the runtime architecture itself on a 32-bit one or to its 32-bit compat architecture (aarch64→arm, x86_64→i386, ppc64→ppc, s390x→s390); getDisplayArch answers b64 only for the runtime architecture when it is one of the 64-bit ones and b32 only for a 32-bit runtime architecture itself or for exactly that compat pair", 12)
+	archCompat(r, w)
+
 	// R4 syscalls + R5 rule tables
 	c07ReverseTables(r, w, "C20.R4")
 
@@ -1393,4 +1397,141 @@ func noRecursiveFormat(r *Run, w *World) {
 			r.Check(bad == "", fnName(fn)+" does not format itself", fn.Pos(), fmt.Sprintf("%d formatting calls, none re-enters the method", n), bad)
 		}
 	}
+}
+
+// archCompat decides C20.R10 (see the rule text). The pairing is stated by name; codes come from
+// AuditArchNames.
+func archCompat(r *Run, w *World) {
+	compat := map[string]string{"aarch64": "arm", "x86_64": "i386", "ppc64": "ppc", "s390x": "s390"}
+	self32 := map[string]bool{"arm": true, "i386": true, "ppc": true, "s390": true}
+	nameOf := map[string]string{} // decimal code → name
+	if ents, _, _, err := w.MapLit("auparse", "AuditArchNames"); err != nil {
+		r.Anchor(err)
+		return
+	} else {
+		for _, kv := range ents {
+			n, _ := cStr(kv.ValC)
+			k, _ := cUint(kv.KeyC)
+			nameOf[fmt.Sprint(k)] = n
+		}
+	}
+	// forward: getArch
+	if ga, err := w.Func("rule", "getArch"); err != nil {
+		r.Anchor(err)
+	} else {
+		seen := map[string]bool{}
+		for _, arm := range switchArms(ga) {
+			if !strings.Contains(arm.Subject, "getRuntimeArch") {
+				continue
+			}
+			kind := ""
+			for _, l := range GuardLits(arm.If.Block()) {
+				switch {
+				case strings.HasSuffix(l, "== \"b64\""):
+					kind = "b64"
+				case strings.HasSuffix(l, "== \"b32\""):
+					kind = "b32"
+				}
+			}
+			rt := constKey(arm.Const)
+			if kind == "" {
+				r.Undecided("getArch arm "+rt, arm.If.Pos(), "a test of the runtime architecture that is under neither b64 nor b32")
+				continue
+			}
+			eff, pos := armEffect(arm.Arm, arm.If.Block())
+			want := ""
+			switch {
+			case kind == "b64" && compat[rt] != "":
+				want = "phi " + arm.Subject
+			case kind == "b32" && self32[rt]:
+				want = "phi " + arm.Subject
+			case kind == "b32" && compat[rt] != "":
+				want = "phi \"" + compat[rt] + "\""
+			}
+			key := "getArch " + kind + " on " + rt
+			seen[kind+"/"+rt] = true
+			if want == "" {
+				r.Fail(key, arm.If.Pos(), fmt.Sprintf("%s is accepted on runtime architecture %s, which has no such ABI: %s", kind, rt, eff))
+				continue
+			}
+			// a self mapping may also be written as the constant itself
+			okEff := eff == want || (strings.HasSuffix(want, arm.Subject) && eff == "phi \""+rt+"\"")
+			r.Check(okEff, key, pos, eff, fmt.Sprintf("%s on %s resolves by [%s]; want [%s]", kind, rt, eff, want))
+		}
+		for rt := range compat {
+			for _, kind := range []string{"b64", "b32"} {
+				if !seen[kind+"/"+rt] {
+					r.Fail("getArch "+kind+" on "+rt, ga.Pos(), fmt.Sprintf("getArch has no arm resolving %s on %s", kind, rt))
+				}
+			}
+		}
+	}
+	// back: getDisplayArch
+	gd, err := w.Func("rule", "getDisplayArch")
+	if err != nil {
+		r.Anchor(err)
+		return
+	}
+	ps, complete := Paths(gd, PathOpts{Cap: 20000})
+	if !complete {
+		r.Undecided("getDisplayArch paths", gd.Pos(), "path cap exceeded")
+		return
+	}
+	num := regexp.MustCompile(`^(.+) == ([0-9]+)$`)
+	seenB := map[string]bool{}
+	for _, p := range ps {
+		ret := p.Ret()
+		if ret == nil || len(ret.Results) != 2 {
+			continue
+		}
+		name, isC := constString(ret.Results[0])
+		if !isC || (name != "b32" && name != "b64") {
+			continue
+		}
+		reqK, rtK, rtTerm, eqRT := "", "", "", false
+		for _, l := range p.Lits() {
+			if m := num.FindStringSubmatch(l); m != nil {
+				if m[1] == "p0" {
+					reqK = m[2]
+				} else {
+					rtK, rtTerm = m[2], m[1]
+				}
+				continue
+			}
+			if strings.HasPrefix(l, "p0 == ") && !strings.HasPrefix(l, "p0 == \"") {
+				eqRT = true
+				if rtTerm == "" {
+					rtTerm = strings.TrimPrefix(l, "p0 == ")
+				}
+			}
+		}
+		_ = rtTerm
+		req, rt := nameOf[reqK], nameOf[rtK]
+		if eqRT {
+			if req == "" {
+				req = rt
+			}
+			rt = req
+		}
+		key := fmt.Sprintf("getDisplayArch %s for %s on %s", name, orQ(req), orQ(rt))
+		if seenB[key] {
+			continue
+		}
+		seenB[key] = true
+		switch {
+		case req == "" || rt == "":
+			r.Undecided(key, ret.Pos(), "cannot read the (runtime, requested) architecture pair from the path conditions: "+compactPath(p))
+		case name == "b64":
+			r.Check(req == rt && compat[rt] != "", key, ret.Pos(), "", fmt.Sprintf("architecture %s on a %s runtime is listed as b64, which getArch resolves to the runtime architecture (and only on a 64-bit one)", req, rt))
+		default:
+			r.Check((req == rt && self32[rt]) || compat[rt] == req, key, ret.Pos(), "", fmt.Sprintf("architecture %s on a %s runtime is listed as b32, which getArch resolves to %s there: the listed rule re-encodes to another architecture", req, rt, orQ(compat[rt])))
+		}
+	}
+}
+
+func orQ(s string) string {
+	if s == "" {
+		return "?"
+	}
+	return s
 }
